@@ -72,11 +72,18 @@ def extrema_interpolated_phase(sig, peaks, troughs, rises=None, decays=None):
     pha_tnpi[peaks] = 0
     pha_tnpi[troughs] = -np.pi
 
+    # Span of the empirical phase timepoints
+    empirical_idxs = np.flatnonzero(~np.isnan(pha_tpi))
+
     # Interpolate to find all phases
     pha_tpi = np.interp(times, times[~np.isnan(pha_tpi)], pha_tpi[~np.isnan(pha_tpi)])
     pha_tnpi = np.interp(times, times[~np.isnan(pha_tnpi)], pha_tnpi[~np.isnan(pha_tnpi)])
 
     pha = _merge_phases(pha_tpi, pha_tnpi)
+
+    # Assign the periods before the first / after the last empirical phase timepoint to NaN
+    pha[:empirical_idxs[0]] = np.nan
+    pha[empirical_idxs[-1] + 1:] = np.nan
 
     return pha
 
@@ -92,15 +99,5 @@ def _merge_phases(pha_tpi, pha_tnpi):
 
     # Create new phase series, using trough pi for decaying periods & trough -pi for rising periods
     pha = np.array([pha_tpi[idx] if diffs[idx] < 0 else pha for idx, pha in enumerate(pha_tnpi)])
-
-    # Assign the periods before the first empirical phase timepoint to NaN
-    diffs = np.diff(pha)
-    first_empirical_idx = next(idx for idx, xi in enumerate(diffs) if xi > 0)
-    pha[:first_empirical_idx] = np.nan
-
-    # Assign the periods after the last empirical phase timepoint to NaN
-    diffs = np.diff(pha)
-    last_empirical_idx = next(idx for idx, xi in enumerate(diffs[::-1]) if xi > 0)
-    pha[-last_empirical_idx + 1:] = np.nan
 
     return pha
